@@ -47,7 +47,8 @@ def missing_stream(ck, cases):
                 for q in params[miss:]:
                     q['default'] = True           # a parameter with a default cannot be followed by one without
                 params[miss]['omit'] = rng.random() < 0.7
-        out.append({'stream': 'missing', 'obs': 'missing', 'params': params, 'miss': miss, 'bare': rng.choice(CC.BARE_T + CC.BARE_B) if bare_instead else None,
+        out.append({'thread': True} if rng.random() < 0.08 else {})
+        out[-1].update({'stream': 'missing', 'obs': 'missing', 'params': params, 'miss': miss, 'bare': rng.choice(CC.BARE_T + CC.BARE_B) if bare_instead else None,
                     'ret_val': rng.choice(G.SCALARS[:8] + [['list', []]]), 'ctx': G.CTX, 'kind': rng.choice(['def', 'def', 'async', 'method'])})
     ck.missing = out
 
@@ -58,6 +59,8 @@ def run(tier, seed, replay=None):
 
     def extra(ck, cases):
         state['ck'] = ck
+        if replay is not None and replay.get('case', {}).get('obs') in ('bare_zoo', 'varargs'):
+            cases.clear()
         if replay is not None and replay.get('case', {}).get('stream') == 'missing':
             ck.missing = [replay['case']]
             cases.clear()
@@ -104,6 +107,43 @@ def run(tier, seed, replay=None):
                 if what:
                     ck.violation(what, c, stream='varargs', extra={'impl': r}, matcher=varargs_matcher)
             ck.coverage['varargs_stream'] = {'cases': len(va), 'outcomes': vh}
+        # the 15 bare forms x the VALUE ZOO (values outside the model's universe: named-tuple instances - for which the checker
+        # takes a path of its own before the bare-builtin test -, objects with an _asdict of their own, generators, modules,
+        # classes ...), at assert_value_matches_type and as parameter / return annotation.  Implementation only; the oracle is
+        # the property text itself: PedanticTypeCheckException for every value, the body does not run for a parameter
+        if replay is None or replay.get('case', {}).get('obs') == 'bare_zoo':
+            if replay is not None:
+                bz = [replay['case']]
+            else:
+                nv = ck.run_impl('w_checker', [{'obs': 'zoo_sizes'}], shards=1)[0]['sizes'][1]
+                bz = [{'obs': 'bare_zoo', 'stream': 'bare-zoo', 'bare': b, 'vi': j, 'pos': 'avmt'} for b in CC.BARE_T + CC.BARE_B for j in range(nv)]
+                at_fn = [{'obs': 'bare_zoo', 'stream': 'bare-zoo', 'bare': b, 'vi': j, 'pos': pos}
+                         for b in CC.BARE_T + CC.BARE_B for j in range(nv) for pos in ('arg', 'ret')]
+                bz += at_fn if ck.tier == 'thorough' else ck.rng.sample(at_fn, min(len(at_fn), 500 * ck.scale()))
+                for c in bz:
+                    if ck.rng.random() < 0.08:
+                        c['thread'] = True
+            bres = ck.run_impl('w_checker', bz, timeout=900)
+            bh = {}
+            for c, r in zip(bz, bres):
+                if r is None or 'error' in r:
+                    ck.oblige('impl-worker:bare-zoo', 'correspondence', False, f'{c} -> {r}')
+                    continue
+                ck.note_case(json.dumps([c['bare'], c['vi'], c['pos']]), nontrivial=True)
+                bh[CC.OUT_NAMES.get(r['out'], str(r['out']))] = bh.get(CC.OUT_NAMES.get(r['out'], str(r['out'])), 0) + 1
+                what = None
+                where = {'avmt': 'assert_value_matches_type with the annotation', 'arg': 'a call of a function whose parameter annotation is',
+                         'ret': 'a call of a function whose return annotation is'}[c['pos']]
+                if r['out'] != 1:
+                    what = (f'{where} bare {c["bare"]} gave {CC.OUT_NAMES.get(r["out"], r["out"])} instead of PedanticTypeCheckException '
+                            f'for a value of type {r.get("val")} (value zoo #{c["vi"]})')
+                elif c['pos'] == 'arg' and r.get('body_ran'):
+                    what = f'the body ran although the parameter annotation is bare {c["bare"]} (value of type {r.get("val")}, value zoo #{c["vi"]})'
+                if what:
+                    ck.violation(what + CC.dimension_note(c), dict(c, value_type=r.get('val')), stream='bare-zoo', extra={'impl': r})
+            ck.coverage['bare_x_value_zoo_stream'] = {'cases': len(bz), 'outcomes': bh}
     return CC.run('C06', tier, seed, replay, PROPS, judge, extra_streams=extra, extra_units=['Pedantic'],
                   rule_extra='; bare stream: the 15 bare forms x values; missing stream: generated signatures (1-4 parameters, def/async/method) '
-                             'with one missing or bare annotation at a random position, conforming arguments by keyword')
+                             'with one missing or bare annotation at a random position, conforming arguments by keyword; bare-zoo stream: the 15 bare '
+                             'forms x 78 zoo values (named-tuple instances, objects with _asdict, generators, modules ...) at '
+                             'assert_value_matches_type / parameter / return position; a share of all calls from another thread')
